@@ -739,6 +739,24 @@ impl<'a> G<'a> {
                     let f = named[self.r.below(named.len())].clone();
                     return self.fn_ref(&f);
                 }
+                // a named function handed to a higher-order helper as a value: `poly_flip(describe)` is the function
+                // with the two parameters swapped - also when `describe` declares its parameters with labels
+                if ps.len() == 2 {
+                    let cands: Vec<FnDef> = self
+                        .fns
+                        .iter()
+                        .filter(|f| f.params.len() == 2 && f.params[0].ty == ps[1] && f.params[1].ty == ps[0] && &f.ret == &**r && self.usable(f) && self.reachable_by_name(f))
+                        .cloned()
+                        .collect();
+                    if !cands.is_empty() && self.r.chance(1, 2) {
+                        // labelled ones first: that is where a unifier can go wrong
+                        let labelled: Vec<FnDef> = cands.iter().filter(|f| f.params.iter().any(|p| p.label.is_some())).cloned().collect();
+                        let pool = if labelled.is_empty() { &cands } else { &labelled };
+                        let f = pool[self.r.below(pool.len())].clone();
+                        self.feat(if labelled.is_empty() { "function-value-through-higher-order-helper" } else { "labelled-function-value-through-higher-order-helper" });
+                        return Expr::Call(Box::new(Expr::Var(plain("poly_flip"))), vec![Arg { label: None, value: self.fn_ref(&f) }]);
+                    }
+                }
                 // capture: g(_, x) for a function with one more parameter
                 if ps.len() == 1 && depth > 0 {
                     let cands: Vec<FnDef> = self
@@ -1103,6 +1121,7 @@ pub const POLY_LIB: &[(&str, &str, &str)] = &[
     ("poly_ring2", "fn poly_ring2($1, $2, $3) { case $1 { 0 -> #($2, []) _ -> poly_ring3($1 - 1, $2, $3) } }", "fn(Int, a, b) -> #(a, List(b))"),
     ("poly_ring3", "fn poly_ring3($1, $2, $3) { let $2 = #($2, []) poly_ring1($1, $2.0, $3) }", "fn(Int, a, b) -> #(a, List(b))"),
     ("poly_ok", "fn poly_ok($1, $2) { case True { True -> Ok($1) False -> Error($2) } }", "fn(a, b) -> Result(a, b)"),
+    ("poly_flip", "fn poly_flip($1) { fn($2, $3) { $1($3, $2) } }", "fn(fn(a, b) -> c) -> fn(b, a) -> c"),
     // a type variable that first appears in an annotation *after* un-annotated parameters is a variable of its own
     ("poly_later", "fn poly_later($1, $2) -> fn(a) -> Int { let _ = $1 let _ = $2 fn(_) { 1 } }", "fn(a, b) -> fn(c) -> Int"),
     // `use` with the call's own arguments labelled and written in another order than declared
